@@ -43,6 +43,19 @@ class ProtocolError(Exception):
     """the app violated the server interface (detected by a monitor)"""
 
 
+class Runaway(BaseException):
+    """raised by the monitor's send() to stop an app that keeps emitting after the client has
+    disconnected (COUNT based: more than RUNAWAY_EVENTS further events)"""
+
+
+class WallClockGuard(Exception):
+    """last-resort wall-clock guard fired; never a verdict by itself: the cell is re-run alone"""
+
+
+RUNAWAY_EVENTS = 50        # events tolerated after http.disconnect was delivered
+WALL_CLOCK_GUARD_S = 120   # last resort only, confirmed by a second run
+
+
 # ------------------------------------------------------------------ scripted streams
 
 class Script:
@@ -263,7 +276,7 @@ async def serve_asgi(app, method, fail_at, disconnect=None):
     never = asyncio.Event()
     parked = asyncio.Event()
     gone = asyncio.Event()          # the client disconnected
-    more_sent = {'n': 0}
+    more_sent = {'n': 0, 'after_gone': 0}
     if disconnect == 0:
         gone.set()
 
@@ -301,6 +314,12 @@ async def serve_asgi(app, method, fail_at, disconnect=None):
                 raise ProtocolError('body %r' % type(b))
             events.append(['body', b, bool(ev.get('more_body', False))])
             if disconnect is not None:
+                if gone.is_set() and ev.get('more_body', False):
+                    # the disconnect has been delivered: a correct app stops within an event
+                    # or two; the verdict is a COUNT, not a clock
+                    more_sent['after_gone'] += 1
+                    if more_sent['after_gone'] > RUNAWAY_EVENTS:
+                        raise Runaway()
                 if ev.get('more_body', False):
                     more_sent['n'] += 1
                 if more_sent['n'] >= disconnect:
@@ -326,9 +345,12 @@ async def serve_asgi(app, method, fail_at, disconnect=None):
         try:
             if disconnect is not None:
                 try:
-                    await asyncio.wait_for(app(scope, receive, send), 5)
+                    await asyncio.wait_for(app(scope, receive, send), WALL_CLOCK_GUARD_S)
+                except Runaway:
+                    raise ProtocolError('the app goes on emitting after http.disconnect: more than %d further '
+                                        'events' % RUNAWAY_EVENTS)
                 except asyncio.TimeoutError:
-                    raise ProtocolError('the app goes on emitting after http.disconnect')
+                    raise WallClockGuard()
             else:
                 await app(scope, receive, send)
         except SCRIPTED:
@@ -674,7 +696,17 @@ def run_cells(ctx, model, env, cells, label):
             env.cell, env.script = c, None
             app = env.apps[(1, c['custom_resp'], int(isinstance(c.get('recovery'), dict)))]
             try:
-                events, raised = await serve_asgi(app, c['method'], c['fail_at'], c.get('disconnect'))
+                try:
+                    events, raised = await serve_asgi(app, c['method'], c['fail_at'], c.get('disconnect'))
+                except WallClockGuard:
+                    # not a verdict: run the cell once more, alone; only a second firing counts
+                    ctx.count('wall-clock-guard-fired')
+                    env.cell, env.script = c, None
+                    try:
+                        events, raised = await serve_asgi(app, c['method'], c['fail_at'], c.get('disconnect'))
+                    except WallClockGuard:
+                        raise ProtocolError('the app did not finish within %d s after http.disconnect, twice'
+                                            % WALL_CLOCK_GUARD_S)
                 sc = env.script
                 obs[n] = ['ok', events, raised, sc.reads if sc else 0, sc.closes if sc else 0]
             except ProtocolError as e:
